@@ -402,7 +402,7 @@ def judge(d):
                 sc = cur.score([tm], **tkw)[0]
                 for i in range(n):
                     w = single(i).score([tm], **tkw)[0][0]
-                    if not (sc[i] == w or abs(sc[i] - w) <= 1e-6 * abs(w)):
+                    if not (sc[i] == w or abs(sc[i] - w) <= 1e-4):  # float32 orientations differ in the last bit between loader kinds; a wrong row differs by O(0.1)
                         out.append(viol("C03/score-row", f"final score: row {i} = {sc[i]} but the single-molecule loader of uid {cur_model[i].uid} gives {w}"))
                         break
             elif obs == "align":
@@ -412,7 +412,7 @@ def judge(d):
                 else:
                     for i in range(n):
                         w = single(i).align(tm, max_shifts=1.0, **tkw).molecules
-                        if not (np.allclose(al.pos[i], w.pos[0], atol=1e-4) and abs(float(al.features["score"][i]) - float(w.features["score"][0])) <= 1e-5):
+                        if not (np.allclose(al.pos[i], w.pos[0], atol=1e-4) and abs(float(al.features["score"][i]) - float(w.features["score"][0])) <= 1e-4):
                             out.append(viol("C03/align-row", f"final align: row {i} (uid {cur_model[i].uid}) = pos {al.pos[i].tolist()} score {al.features['score'][i]}, "
                                             f"single-molecule loader gives {w.pos[0].tolist()} / {w.features['score'][0]}"))
                             break
@@ -420,7 +420,7 @@ def judge(d):
                 ld = cur.construct_landscape(tm, max_shifts=1.0, **tkw).compute()
                 for i in range(n):
                     w = single(i).construct_landscape(tm, max_shifts=1.0, **tkw).compute()[0]
-                    if ld[i].shape != w.shape or not np.allclose(ld[i], w, atol=1e-5):
+                    if ld[i].shape != w.shape or not np.allclose(ld[i], w, atol=1e-4):
                         out.append(viol("C03/landscape-row", f"final landscape: row {i} (uid {cur_model[i].uid}) differs from the single-molecule loader"))
                         break
     return out
